@@ -25,7 +25,7 @@ from vf import sched
 from vf import universe as U
 from vf import wire
 from vf.checks.c04 import to_et
-from vf.core import HarnessError, Tally, in_fork
+from vf.core import vacuous, HarnessError, Tally, in_fork
 
 LEVEL = "model_checking"
 UTC = datetime.timezone.utc
@@ -501,16 +501,16 @@ def run(ctx):
         tally.sample({"free_running_smoke_mismatches": smoke["mismatches"]})
     fps = [o for o in tally.outcomes if o.startswith("fp:")]
     if tally.counts.get("histories", 0) < 300 or tally.counts.get("schedules", 0) < 500:
-        raise HarnessError(f"vacuous: {tally.counts}")
+        vacuous(tally, f"vacuous: {tally.counts}")
     if len(fps) < 2:
-        raise HarnessError("vacuous: the global-state fingerprint never changed (run-time registration of dispatch handlers should show)")
+        vacuous(tally, "vacuous: the global-state fingerprint never changed (run-time registration of dispatch handlers should show)")
     cov = {
         "states": len(fps),
-        "transitions": tally.counts["transitions"],
-        "traces_validated_against_impl": tally.counts["histories"],
+        "transitions": tally.counts.get("transitions", 0),
+        "traces_validated_against_impl": tally.counts.get("histories", 0),
         "samples": tally.samples[:6],
-        "schedules": tally.counts["schedules"],
-        "schedule_pairs": tally.counts["sched-pairs"],
+        "schedules": tally.counts.get("schedules", 0),
+        "schedule_pairs": tally.counts.get("sched-pairs", 0),
         "schedule_pairs_capped": tally.counts.get("capped-pairs", 0),
         "max_points_per_schedule": pm,
         "free_running_smoke": smoke,
